@@ -128,6 +128,29 @@ def call_args(n):
     return []
 
 
+def call_like_args(n):
+    """Arguments of a call, or the argument expressions bound to the parameters of an inlined call (pv/inline.py)."""
+    n = peel(n)
+    if kind(n) in ("Call", "MethodCall"):
+        return call_args(n)
+    if kind(n) == "Block" and n.get("inlined"):
+        return [st["init"] for st in n.get("stmts", []) if st.get("inl_param")]
+    return None
+
+
+def called_paths(body):
+    """Def-paths called in body, including helpers whose call was replaced by their inlined body."""
+    out = set()
+    for n in walk(body):
+        if n.get("k") in ("Call", "MethodCall"):
+            c = callee(n)
+            if isinstance(c, str):
+                out.add(c)
+        elif n.get("k") == "Block" and n.get("inlined"):
+            out.add(n["inlined"])
+    return out
+
+
 def peel(n):
     """Strip reference / deref / cast / paren-like wrappers and no-op borrows."""
     while isinstance(n, dict):
@@ -235,6 +258,19 @@ def lets(body):
             if p.get("k") == "PBind" and not p.get("sub"):
                 out[p["id"]] = (n["init"], n)
     return out
+
+
+def root_let(lid, lets, depth=0):
+    """Follow `let a = b; let c = a;` chains (also the parameter lets of an inlined helper): the id of the first
+    binding in the chain whose initializer is not just another local, or lid itself."""
+    while depth < 8 and lid in lets:
+        init = peel(lets[lid][0])
+        if kind(init) == "Path" and init.get("res") == "local" and init["id"] in lets:
+            lid = init["id"]
+            depth += 1
+        else:
+            break
+    return lid
 
 
 def binding_modes(fn):
@@ -468,6 +504,9 @@ class PathEnum:
                 if o1 != "normal":
                     yield (e1, a1, o1)
                 else:
+                    if n.get("inl_ret") and n.get("e") is not None:
+                        # `return e` of an inlined helper: e is the value of the inlined block on this path
+                        e1 = e1 + (Ev("tail", n["e"]),)
                     yield (e1, a1, ("break", n.get("target")))
         elif k == "Continue":
             yield (ev, asm, ("continue", n.get("target")))
@@ -781,7 +820,8 @@ class Ctx:
            ('arm', match, idx)       n is inside arm idx of match
            ('guard', cond, True)     n is inside an arm whose guard is cond
            ('not', cond, False)      an earlier statement `if cond { diverge/return }` of an enclosing block
-           ('let', stmt)             an earlier `let pat = init` of an enclosing block (for `x?` guards)"""
+           ('let', stmt)             an earlier `let pat = init` of an enclosing block (for `x?` guards)
+           ('try', expr)             an earlier statement `expr?;` of an enclosing block (a checking helper)"""
         out = []
         for (p, k, i) in self.ancestors(n):
             pk = p.get("k")
@@ -805,6 +845,11 @@ class Ctx:
                         e = st["e"]
                         if e.get("k") == "If" and e.get("else") is None and diverges(e["then"]):
                             out.append(("not", e["cond"], False, e))
+                        elif e.get("k") == "Match" and e.get("src") == "try":
+                            # an earlier `check(..)?;` statement: ('try', the operand of `?`)
+                            inner = e["scrut"]
+                            if inner.get("k") == "Call" and inner.get("args"):
+                                out.append(("try", inner["args"][0]))
                     elif sk == "Let":
                         out.append(("let", st))
             elif pk == "Closure":
